@@ -66,7 +66,7 @@ func (s *hStage01) Exec(ctx context.Context, _ *slog.Logger, as ...*alert.Alert)
 // stays in its group and is handed over again at the next interval until one succeeds.
 //
 //vf:quick unwind=16 decisions=300 goroutines=8 preempt=1 timerfires=24
-//vf:thorough unwind=16 decisions=400 goroutines=8 preempt=2 timerfires=32
+//vf:thorough unwind=16 decisions=400 goroutines=8 preempt=1 timerfires=32
 //vf:expect reach=delivered-after-failures reach=immediate-first-flush reach=waited-group-wait reach=hung-until-deadline
 func VerifC01_FlushSchedule() {
 	gwD := vfSeconds("groupWait", 0, 3600)
